@@ -60,3 +60,25 @@ NOT_APPLICABLE: Dict[str, str] = {
     "C16": "program-level semantic equivalence of an FX graph rewrite driven by TorchDynamo with the User-Guide recipe: quantifies over programs; no contract on a function within reach of the VC generator expresses it (translation validation / differential testing would be another technique family). See DESIGN.md §C16.",
     "C20": "relates two external execution engines (eager vs TorchDynamo/AOT autograd/Inductor) on the same repo code; the only repo code involved (the 3-way branch in _ScaledGrad.forward) is covered under C02; engine equivalence cannot be expressed as a contract on a repo function. See DESIGN.md §C20.",
 }
+
+_p(
+    "C06",
+    level="proof",
+    trusted_base=SMT + ["Lean 4.33 + Mathlib: stack_sum_sq (induction over stacking depth)"],
+    assumptions=[A1, A2, A7, "the branch function f is an arbitrary uninterpreted function with an uninterpreted VJP linear in the upstream gradient; stacking to any depth follows by instantiating f with another layer (compositional contract) and the inductive Lean lemma stack_sum_sq"],
+    explanation="residual_split, residual_add and residual_apply are executed symbolically with an uninterpreted branch f and tau>0: value == (x + tau f(x))/sqrt(1+tau^2) (weights as exact algebraic characterisations), squares of the weights sum to 1, gradient at x == g/sqrt(1+tau^2) + tau/sqrt(1+tau^2) vjp_f(x;g), gradient entering f's output == g, residual_apply == split/f/add through the two callee contracts.",
+)
+_p(
+    "C10",
+    level="proof",
+    trusted_base=SMT,
+    assumptions=[A1, A7, "float and 0-dim tensor learning rates are compared as reals: item(c*t) == c*item(t) (assumed linearity; 'up to tensor precision' is outside real arithmetic)", "torch.optim base constructors are stubs recording their arguments"],
+    explanation="lr_scale_func_adam / lr_scale_func_sgd / lr_scale_for_depth / _get_fan_in are executed for every tag, rank 1-3 (all dims symbolic), rank>=4, depth None or any int>=1 and compared with the u-muP table of the statement (squared, exact); scaled_parameters: one generic iteration of both loops from an arbitrary earlier state (loop invariant), lr == source lr * factor for every combination of bare tensor / group, float / tensor / missing lr, tagged / untagged, allowed / not; SGD/Adam/AdamW constructors forward exactly the right rule and arguments.",
+)
+_p(
+    "C11",
+    level="proof",
+    trusted_base=SMT + ["trusted/validate_torch.py: SGD / AdamW zero-gradient step formula (assumed, validated at run time)"],
+    assumptions=[A1, A7, "extra group options are represented by two opaque-valued keys (the code compares keys only with the three literal names)", "optimizer step formulas p <- p(1 - lr*wd) for zero gradients are assumed (A6) and validated numerically"],
+    explanation="Loop-invariant proof of scaled_parameters (initiation: result == [] at loop entry; preservation: an arbitrary iteration of the outer and of the inner loop appends exactly one group mk(entry, param) after the earlier ones; use: the returned list): one parameter per group, same parameter object, every other option carried over by identity, caller's dict / list / lr tensor never written, scaled tensor lr is a fresh tensor, lr*wd == requested decay (independent) or wd passed through.",
+)
